@@ -400,12 +400,12 @@ End GobFacts.
 Definition gob_env (enc : value -> bytes) (mv : value) : option bytes :=
   if gob_encodable mv then Some (enc mv) else None.
 
-Lemma gob_nested_refuted : forall enc dec,
-  bind (map_gob (gob_env enc) (VMap [(s "a", VMap [(s "b", VStr (s "1"))])])) (new_map_gob dec) = Err EOther
-  /\ bind (map_gob (gob_env enc) (VMap [(s "a", VList [VStr (s "1")])])) (new_map_gob dec) = Err EOther.
-Proof. intros. split; reflexivity. Qed.
+(* nested maps and lists are transmitted since the types are registered (fix 6a56aba) *)
+Lemma gob_nested_encodable :
+  gob_encodable (VMap [(s "a", VMap [(s "b", VStr (s "1"))]); (s "l", VList [VStr (s "1"); VMap []; VList []])]) = true.
+Proof. reflexivity. Qed.
 
-Lemma gob_flat_partial : forall enc dec mv,
+Lemma gob_env_roundtrip : forall enc dec mv,
   gob_encodable mv = true -> enc mv <> [] -> dec (enc mv) = Ok mv ->
   bind (map_gob (gob_env enc) mv) (new_map_gob dec) = Ok mv.
 Proof.
